@@ -64,3 +64,38 @@ Definition orig_of (m : list (str * str)) (eff : str) : str :=
   match alookup str_eqb eff (rev m) with Some o => o | None => eff end.
 Definition translate (m : list (str * str)) (sts : list (str * bool)) : list (str * bool) :=
   map (fun p => (orig_of m (fst p), snd p)) sts.
+
+(* ---- the pipeline end to end: AddRcpt records the rewrites of its own level (a pipeline,
+   or a pipeline nested in another one), BodyNonAtomic of each level translates the results of
+   the level below through the rewrites recorded at that level ---- *)
+Definition rwtab := list (str * list str).
+Definition rw_of (rw : rwtab) (a : str) : list str :=
+  match alookup str_eqb a rw with Some l => l | None => [a] end.
+Fixpoint zip_app {A : Type} (a b : list (list A)) : list (list A) :=
+  match a, b with
+  | x :: a', y :: b' => (x ++ y) :: zip_app a' b'
+  | [], _ => b
+  | _, [] => a
+  end.
+(* the entries recorded at each level (outermost first) and the addresses handed to the next
+   hop, for one client recipient *)
+Fixpoint add_levels (rws : list rwtab) (to : str) : list (list (str * str)) * list str :=
+  match rws with
+  | [] => ([], [to])
+  | rw :: rest =>
+      fold_left (fun acc e => let r := add_levels rest e in
+                              (zip_app (fst acc) ((if str_eqb e to then [] else [(e, to)]) :: fst r), snd acc ++ snd r))
+                (rw_of rw to) ([], [])
+  end.
+Definition pipe_maps (rws : list rwtab) (rcpts : list str) : list (list (str * str)) :=
+  fold_left (fun acc r => zip_app acc (fst (add_levels rws r))) rcpts [].
+Definition pipe_handed (rws : list rwtab) (rcpts : list str) : list str := flat_map (fun r => snd (add_levels rws r)) rcpts.
+(* the innermost level translates first *)
+Definition translate_levels (maps : list (list (str * str))) (sts : list (str * bool)) : list (str * bool) :=
+  fold_right translate sts maps.
+Definition pipe_e2e (rws : list rwtab) (rcpts fails : list str) : list (str * bool) :=
+  translate_levels (pipe_maps rws rcpts)
+                   (map (fun e => (e, negb (mem_b str_eqb e fails))) (pipe_handed rws rcpts)).
+(* what the property asks for: every result under the address the client supplied *)
+Definition pipe_want (rws : list rwtab) (rcpts : list str) : list str :=
+  flat_map (fun r => map (fun _ => r) (snd (add_levels rws r))) rcpts.
